@@ -3,6 +3,7 @@
 package main
 
 import (
+	"runtime"
 	"sync"
 
 	"github.com/a-h/parse"
@@ -27,21 +28,51 @@ type noProgress struct {
 
 type recorder struct {
 	record bool
+	n      int // length of the CALLER's input
 	last   map[uint64]int
 	events []topEvent
+	oob    *topEvent // first loop top whose cursor lies beyond the caller's input
+	pi     *parse.Input
 }
 
-var recorders sync.Map // *parse.Input -> *recorder
+// The parse runs inside parser.ParseString, which creates its own parse.Input: the recorder is found
+// through the goroutine that runs the parse (first event), then through the input pointer.
+var (
+	byGoroutine sync.Map // goroutine id -> *recorder
+	byInput     sync.Map // *parse.Input -> *recorder
+)
+
+func goid() uint64 {
+	var buf [64]byte
+	s := buf[:runtime.Stack(buf[:], false)]
+	s = s[len("goroutine "):]
+	var id uint64
+	for _, c := range s {
+		if c < '0' || c > '9' {
+			break
+		}
+		id = id*10 + uint64(c-'0')
+	}
+	return id
+}
 
 func init() {
 	parser.VerifLoopHook = func(pi *parse.Input, loop string, frame uint64, index int) {
-		v, ok := recorders.Load(pi)
+		v, ok := byInput.Load(pi)
 		if !ok {
-			return
+			v, ok = byGoroutine.Load(goid())
+			if !ok {
+				return
+			}
+			v.(*recorder).pi = pi
+			byInput.Store(pi, v)
 		}
 		r := v.(*recorder)
 		if r.record && len(r.events) < 400000 {
 			r.events = append(r.events, topEvent{frame, loop, index})
+		}
+		if index > r.n && r.oob == nil {
+			r.oob = &topEvent{frame, loop, index}
 		}
 		if l, seen := r.last[frame]; seen && index <= l {
 			panic(&noProgress{Loop: loop, Index: index})
@@ -50,13 +81,17 @@ func init() {
 	}
 }
 
-func attach(pi *parse.Input, n int, record bool) *recorder {
-	r := &recorder{record: record, last: map[uint64]int{}}
-	recorders.Store(pi, r)
+// attach must be called by the goroutine that is going to parse.
+func attach(n int, record bool) *recorder {
+	r := &recorder{record: record, n: n, last: map[uint64]int{}}
+	byGoroutine.Store(goid(), r)
 	return r
 }
 
-func detach(pi *parse.Input, r *recorder) []topEvent {
-	recorders.Delete(pi)
-	return r.events
+func detach(r *recorder) ([]topEvent, *topEvent) {
+	byGoroutine.Delete(goid())
+	if r.pi != nil {
+		byInput.Delete(r.pi)
+	}
+	return r.events, r.oob
 }
